@@ -11,18 +11,18 @@
                    are JUDGED by the rule (Model/RecordRuns.v spec_records: one
                    record per maximal run of consecutive results with identical
                    labels), not by the model of the code.
-      3  history, amended : the same payload as a kind-2 case whose input the
-                   harness tagged C19_record_split_at_flush (a forced flush
-                   falls on the first result of a run that has a follower — the
-                   recorded finding); the listing counts are judged by the rule
-                   amended by exactly that deviation (the records of the insert
-                   model, which Proofs/RecordRuns.v shows to be the rule's
-                   wherever no such flush occurs), so that any OTHER deviation
-                   on such an input is still a violation
+    Known findings (known_findings.json, kind "finding") are judged narrowly:
+    [run_case] returns [code_of3 corr prop known] where [known] is the property
+    with EXACTLY the recorded deviations allowed (C19_trailing_cr_lost,
+    C19_empty_name_label_value, C19_empty_equality_refused,
+    C19_record_split_at_flush): each deviation changes the EXPECTATION only
+    where its input class is met (a value/line ending in CR, a label with an
+    empty value under key>"", a term key:"", a run cut by a forced flush), so a
+    tagged history is still judged in everything the deviation does not touch.
     Domain on which the model is tied to the code: lines shorter than
     bufio.Scanner's 64 KiB token limit; cased letters only from ASCII, Latin-1,
     basic Greek and basic Cyrillic (Model/Words.v). *)
-From Perf Require Import Base.Bytes Base.Sx Model.Words Model.Query Model.StoreFmt Model.Sql Model.RecordRuns.
+From Perf Require Import Base.Bytes Base.Sx Model.Words Model.Query Model.StoreFmt Model.Sql Model.RecordRuns Model.LabelSpec.
 
 Definition blist_eqb := list_eqb beq.
 
@@ -102,8 +102,9 @@ Definition prop_w (c : wcase) : bool :=
       let sep := if existsb (Byte.eqb w_bar) (w_query c) then [] else [[w_bar]] in
       blist_eqb (w_bwords c) (w_add c :: sep ++ w_qwords c)
   end
-  (* no word SplitWords returns is empty *)
-  && forallb (fun w => negb (beq w [])) (w_words c)
+  (* (that no returned word is empty is NOT demanded here: the property does not
+     state it — shell-style "" is an empty word; the model, which has none
+     (C19_splitwords_no_empty_word), is tied to the code by corr_w) *)
   (* words are separated by ASCII space and tab only *)
   && plain_split_ok (w_q c) (w_words c)
   && plain_split_ok (w_query c) (w_qwords c)
@@ -206,13 +207,19 @@ Definition lobs_matches (m : list (bytes * N) + qerr) (o : lobs) : bool :=
   | _, _ => false
   end.
 
+(** /search: the server prints the results of DB.Query with ONE Printer, the
+    client reads the text with ONE Reader (for results without a trailing CR
+    this is the identity: Proofs/StoreFmt.v printer_reader_roundtrip) *)
+Definition http_of (m : list result + qerr) : list result + qerr :=
+  match m with inl rs => inl (read_plain (print_all [] rs)) | inr e => inr e end.
+
 Definition corr_q (d : db) (c : qcase) : bool :=
   let m := db_query d (qc_q c) in
   let l := list_uploads d (qc_q c) (qc_limit c) in
   qobs_matches m (qc_db c)
   (* /search refuses an empty q *)
   && (match qc_q c with [] => match qc_http c with ObsErr => true | _ => false end
-                   | _ => qobs_matches m (qc_http c) end)
+                   | _ => qobs_matches (http_of m) (qc_http c) end)
   && lobs_matches l (qc_dblist c) && lobs_matches l (qc_httplist c).
 
 (** the relational semantics of the generated SQL (Model/Sql.v), evaluated over
@@ -249,20 +256,24 @@ Definition corr_h (c : hcase) : bool :=
 Definition all_labels (r : result) : labels := r_labels r ++ r_namelabels r.
 
 (** what the successful uploads should have stored, by the format's rules:
-    every benchmark line of every file with the labels in effect there *)
+    every benchmark line of every file with the labels it carries there
+    (Model/LabelSpec.v: server labels, file labels in effect, name-derived
+    labels — stated without the Reader's loop; Proofs/LabelSpec.v shows the
+    model of the Reader returns exactly these) *)
 Definition expected_all (us : list ucase) : list result :=
-  flat_map (fun u => if uc_ok u then upload_results (uc_in u) 0 (u_files (uc_in u)) else []) us.
+  flat_map (fun u => if uc_ok u then spec_upload_results (uc_in u) 0 (u_files (uc_in u)) else []) us.
 
 (** stored records per accepted upload BY THE RULE, newest first: one record
     per maximal run of consecutive results with identical labels and name
     labels (Model/RecordRuns.v) — independent of the database layer's batching *)
 Definition spec_uploads (us : list ucase) : list (bytes * list rec) :=
-  rev (flat_map (fun u => if uc_ok u then [(u_id (uc_in u), spec_upload_records (uc_in u))] else []) us).
+  rev (flat_map (fun u => if uc_ok u then
+          [(u_id (uc_in u), spec_records (spec_upload_results (uc_in u) 0 (u_files (uc_in u))))] else []) us).
 
 (** the rule amended by the recorded finding C19_record_split_at_flush: the
     records of the insert model (a run is cut after its first result when the
-    flush forced by the 990-argument limit falls on that result); used for
-    kind 3 only *)
+    flush forced by the 990-argument limit falls on that result; Proofs/
+    RecordRuns.v shows them to be the rule's wherever no such flush occurs) *)
 Definition amended_uploads (us : list ucase) : list (bytes * list rec) :=
   rev (flat_map (fun u => if uc_ok u then
                             match process_upload (uc_in u) with
@@ -270,49 +281,127 @@ Definition amended_uploads (us : list ucase) : list (bytes * list rec) :=
                             | inr _ => []
                             end else []) us).
 
+(** **** the recorded deviations, each as a change of the expectation that is
+    the identity wherever its input class is not met *)
+
+(** C19_trailing_cr_lost: one pass through the Printer and the Reader
+    (bufio.ScanLines) drops one trailing CR from every label value and from
+    the line; a value that was just CR disappears with its key; a line that is
+    no benchmark line any more (no white space left: "BenchmarkX\r") is lost.
+    db.Query reads the stored text once (one pass), the client reads what the
+    server printed from that (two passes). *)
+Definition drop_last_cr (s : bytes) : bytes :=
+  match rev s with c :: r => if Byte.eqb c c_cr then rev r else s | [] => [] end.
+Definition cr_labels (l : labels) : labels :=
+  filter (fun kv => negb (beq (snd kv) [])) (map (fun kv => (fst kv, drop_last_cr (snd kv))) l).
+Definition cr_pass1 (r : result) : option result :=
+  let c := drop_last_cr (r_content r) in
+  match parse_benchmark_line c with
+  | Some _ => Some (mkResult (cr_labels (r_labels r)) (r_namelabels r) (r_line r) c)
+  | None => None
+  end.
+Fixpoint filter_map {A B} (f : A -> option B) (l : list A) : list B :=
+  match l with [] => [] | x :: l' => match f x with Some y => y :: filter_map f l' | None => filter_map f l' end end.
+Fixpoint cr_passes (n : nat) (rs : list result) : list result :=
+  match n with O => rs | S n' => cr_passes n' (filter_map cr_pass1 rs) end.
+Definition ends_cr (s : bytes) : bool := match rev s with c :: _ => Byte.eqb c c_cr | [] => false end.
+Definition has_cr (r : result) : bool :=
+  ends_cr (r_content r) || existsb (fun kv => ends_cr (snd kv)) (r_labels r).
+
+(** C19_empty_name_label_value: key>"" is answered as "the label exists", so
+    it also holds of a label whose value is empty *)
+Definition term_holds_gen (gt_exists : bool) (p : part) (l : labels) : bool :=
+  match lookup (p_key p) l with
+  | Some v => holds p v || (gt_exists && op_eqb (p_op p) OpGt && beq (p_v p) [] && beq v [])
+  | None => false
+  end.
+Definition terms_hold_gen (gt_exists : bool) (ts : list part) (l : labels) : bool :=
+  forallb (fun t => term_holds_gen gt_exists t l) ts.
+
+(** C19_empty_equality_refused: a query with a term key:"" (key other than
+    upload) is refused as a whole *)
 Definition has_empty_eq (ts : list part) : bool :=
   existsb (fun t => op_eqb (p_op t) OpEq && beq (p_v t) [] && negb (beq (p_key t) key_upload)) ts.
 
-Definition prop_search (all : list result) (q : bytes) (o : qobs) : bool :=
+(** [known] = false: the property. [known] = true: the property with exactly
+    the recorded deviations allowed — an observation is accepted if it is what
+    the property demands, or what it demands once trailing CRs are dropped
+    [passes] times and/or key>"" reads "label exists" (both are the identity
+    on records without such values); an error only for a query with key:"". *)
+Definition search_expect (all : list result) (ts : list part) (gt : bool) (n : nat) : list result :=
+  cr_passes n (filter (fun r => terms_hold_gen gt ts (all_labels r)) all).
+
+Definition prop_search (known : bool) (passes : nat) (all : list result) (q : bytes) (o : qobs) : bool :=
   match query_terms q, o with
   | None, ObsErr => true
   | None, ObsRes rs => match rs with [] => true | _ => false end   (* contradiction found before the bad word *)
-  | Some ts, ObsErr => has_empty_eq ts                              (* key: with no value is refused *)
+  | Some ts, ObsErr => known && has_empty_eq ts
   | Some ts, ObsRes rs =>
-      mset_eqb res_eqb rs (filter (fun r => terms_hold ts (all_labels r)) all)
+      mset_eqb res_eqb rs (search_expect all ts false 0)
+      || (known && (mset_eqb res_eqb rs (search_expect all ts false passes)
+                    || mset_eqb res_eqb rs (search_expect all ts true 0)
+                    || mset_eqb res_eqb rs (search_expect all ts true passes)))
   end.
 
-Definition prop_list (exp : list (bytes * list rec)) (q : bytes) (limit : Z) (o : lobs) : bool :=
+Definition list_expect (exp : list (bytes * list rec)) (ts : list part) (gt : bool) (limit : Z) : list (bytes * N) :=
+  let counts := map (fun ir => (fst ir, N.of_nat (length (filter
+                  (fun rc => terms_hold_gen gt ts (rc_labels rc ++ rc_namelabels rc)) (snd ir))))) exp in
+  take_limit limit (filter (fun ic => negb (snd ic =? 0)%N) counts).
+
+(** [exp]: the records by the rule; [exp_split]: the rule amended by
+    C19_record_split_at_flush (equal to [exp] unless a run is cut by a forced flush) *)
+Definition prop_list (known : bool) (exp exp_split : list (bytes * list rec)) (q : bytes) (limit : Z) (o : lobs) : bool :=
   match query_terms q, o with
   | None, LObsErr => true
   | None, LObsList l => match l with [] => true | _ => false end
-  | Some ts, LObsErr => has_empty_eq ts
+  | Some ts, LObsErr => known && has_empty_eq ts
   | Some ts, LObsList l =>
-      let counts := map (fun ir => (fst ir, N.of_nat (length (filter
-                      (fun rc => terms_hold ts (rc_labels rc ++ rc_namelabels rc)) (snd ir))))) exp in
-      list_eqb idn_eqb l (take_limit limit (filter (fun ic => negb (snd ic =? 0)%N) counts))
+      list_eqb idn_eqb l (list_expect exp ts false limit)
+      || (known && (list_eqb idn_eqb l (list_expect exp ts true limit)
+                    || list_eqb idn_eqb l (list_expect exp_split ts false limit)
+                    || list_eqb idn_eqb l (list_expect exp_split ts true limit)))
   end.
 
-Definition prop_q (all : list result) (exp : list (bytes * list rec)) (c : qcase) : bool :=
-  prop_search all (qc_q c) (qc_db c)
-  && (match qc_q c with [] => true | _ => prop_search all (qc_q c) (qc_http c) end)
-  && prop_list exp (qc_q c) (qc_limit c) (qc_dblist c)
-  && prop_list exp (qc_q c) (qc_limit c) (qc_httplist c).
+Definition prop_q (known : bool) (all : list result) (exp exp_split : list (bytes * list rec)) (c : qcase) : bool :=
+  prop_search known 1 all (qc_q c) (qc_db c)
+  && (match qc_q c with [] => true | _ => prop_search known 2 all (qc_q c) (qc_http c) end)
+  && prop_list known exp exp_split (qc_q c) (qc_limit c) (qc_dblist c)
+  && prop_list known exp exp_split (qc_q c) (qc_limit c) (qc_httplist c).
 
-Definition prop_h (c : hcase) : bool :=
-  mset_eqb res_eqb (h_all c) (expected_all (h_uploads c))
-  && forallb (prop_q (h_all c) (spec_uploads (h_uploads c))) (h_queries c).
+Definition prop_h_gen (known : bool) (c : hcase) : bool :=
+  let all := expected_all (h_uploads c) in
+  let exp := spec_uploads (h_uploads c) in
+  let exp_split := if known then amended_uploads (h_uploads c) else exp in
+  (mset_eqb res_eqb (h_all c) all || (known && mset_eqb res_eqb (h_all c) (cr_passes 1 all)))
+  && forallb (prop_q known all exp exp_split) (h_queries c).
 
-Definition prop_h_amended (c : hcase) : bool :=
-  mset_eqb res_eqb (h_all c) (expected_all (h_uploads c))
-  && forallb (prop_q (h_all c) (amended_uploads (h_uploads c))) (h_queries c).
+Definition prop_h := prop_h_gen false.
+Definition known_h := prop_h_gen true.
+
+(** kind 1 under C19_trailing_cr_lost: the second reading returns the results
+    after one CR pass; an empty benchmark name gets no name labels while no
+    non-empty name has been read before it (newResult's cache), which a lost
+    line in front can change *)
+Fixpoint cr_pass_all (seen : bool) (rs : list result) : list result :=
+  match rs with
+  | [] => []
+  | r :: rs' =>
+      match cr_pass1 r with
+      | None => cr_pass_all seen rs'
+      | Some r' =>
+          let name := match parse_benchmark_line (r_content r') with Some nm => nm | None => [] end in
+          mkResult (r_labels r') (if is_nilb name && negb seen then [] else r_namelabels r') (r_line r') (r_content r')
+          :: cr_pass_all (seen || negb (is_nilb name)) rs'
+      end
+  end.
+Definition known_f (c : fcase) : bool :=
+  prop_f c || list_eqb res_eqb (cr_pass_all false (f_results c)) (f_reread c).
 
 (** ** entry point *)
 Definition run_case (s : sx) : N :=
   match s with
   | SL (SZ 0 :: l) => match decode_w l with Some c => code_of (corr_w c) (prop_w c) | None => code_undecodable end
-  | SL (SZ 1 :: l) => match decode_f l with Some c => code_of (corr_f c) (prop_f c) | None => code_undecodable end
-  | SL (SZ 2 :: l) => match decode_h l with Some c => code_of (corr_h c) (prop_h c) | None => code_undecodable end
-  | SL (SZ 3 :: l) => match decode_h l with Some c => code_of (corr_h c) (prop_h_amended c) | None => code_undecodable end
+  | SL (SZ 1 :: l) => match decode_f l with Some c => code_of3 (corr_f c) (prop_f c) (known_f c) | None => code_undecodable end
+  | SL (SZ 2 :: l) => match decode_h l with Some c => code_of3 (corr_h c) (prop_h c) (known_h c) | None => code_undecodable end
   | _ => code_undecodable
   end.
